@@ -124,7 +124,7 @@ func init() {
 
 	register(&propertySpec{
 		ID: "C04", Fixtures: []string{"EXTCUT"}, NeedCG: true, Quick: cfgAMD, Thorough: cfgAll,
-		Explanation: "Decides the structural conditions of the PAR1 round trip: encoder and decoder construct the same coder - reedsolomon.New(len(fileData), parity, WithPAR1Matrix()) - (PAIR); a data file counts as usable only after both hashes matched its entry, a parity volume only with verified control hash, the index volume's set hash and the volume number of its file name, and the probing loop covers exactly the volume numbers 1..max (GATE); the counts are incremented on the right edges and the verdict predicates equal the stated table (DECIDE); the coder's too-few-shards / singular error reaches the caller unchanged, where the classifier compares it by identity (ERRFLOW on the PAR1 chain, PAIR-ERRTYPE); the padding length is shown non-negative before make() (MKLEN); the full parity check runs only when all files are usable, names are sized per UTF-16 code unit, and verify/repair declare success only through the decoder (GATE, PAIR, ENTRY-SEQ); the file writer replaces whole files (EFF write-impl). Later additions: extension and prefix cuts by length (EXTCUT, BASECUT); no branch on the decoded name (NAMESYM); only saved entries become shards (SAVEDONLY); the caller's volume count is kept (OPTKEEP); the shard size comes from the first volume found, not from volume 1 (SIZESENT); hash fields are not crossed (FIELDCROSS); the reader returns the OS error itself (ERRIDENT); written buffers matched their entry and intact files are skipped (WGUARD, SKIPOK).",
+		Explanation: "Decides the structural conditions of the PAR1 round trip: encoder and decoder construct the same coder - reedsolomon.New(len(fileData), parity, WithPAR1Matrix()) - (PAIR); a data file counts as usable only after both hashes matched its entry, a parity volume only with verified control hash, the index volume's set hash and the volume number of its file name, and the probing loop covers exactly the volume numbers 1..max (GATE); the counts are incremented on the right edges and the verdict predicates equal the stated table (DECIDE); the coder's too-few-shards / singular error reaches the caller unchanged, where the classifier compares it by identity (ERRFLOW on the PAR1 chain, PAIR-ERRTYPE); the padding length is shown non-negative before make() (MKLEN); the full parity check runs only when all files are usable, names are sized per UTF-16 code unit, and verify/repair declare success only through the decoder (GATE, PAIR, ENTRY-SEQ); the file writer replaces whole files (EFF write-impl). Later additions: extension and prefix cuts by length (EXTCUT, BASECUT); no branch on the decoded name (NAMESYM); only saved entries become shards (SAVEDONLY); the caller's volume count is kept (OPTKEEP); the shard size comes from the first volume found, not from volume 1 (SIZESENT); volume n carries parity row n-1 on both sides (PAR1VOL); hash fields are not crossed (FIELDCROSS); the reader returns the OS error itself (ERRIDENT); written buffers matched their entry and intact files are skipped (WGUARD, SKIPOK).",
 		NotDecided:  []string{"the matrix algebra inside klauspost/reedsolomon", "the range of volume numbers probed and padding arithmetic as values", "UTF-16 name handling beyond using unicode/utf16 on both sides (C10)"},
 		Run: func(w *World, r *Report, tier string) {
 			guard(r, "PAIR", func() { rulePAIRpar1(w, r); rulePAIRERRTYPE(w, r) })
@@ -153,7 +153,7 @@ func init() {
 
 	register(&propertySpec{
 		ID: "C05", NeedCG: true, Quick: cfgAMD, Thorough: cfgAll,
-		Explanation: "Compares what Create emits with tables transcribed from the PAR 2.0 specification, independently of gopar's own reader (a mistake shared by writer and reader keeps every round-trip test green): packet magic and the five packet types by value and their wiring to the body writers, wire struct layouts, little-endian only, IEEE CRC32 and MD5 only, hash input orders of the packet MD5 and the file ID, recovery set id = MD5 of the main packet body as written, a creator packet on every success path, field polynomial 0x1100B, log-domain modulus 65535, generator residues {3,5,17,257} and base 2 (CONST); tables are filled over their whole index range (TABLEFILL); writer and reader use the same coder, slicing and checksums (PAIR); the recovery set is sorted by file id before anything is derived from it (DETERM D-c); the byte partition of the coder workers is word-aligned and covers the slice (RACE). Later additions: the requested recovery block count is kept (OPTKEEP); the generator table keeps its order (GENORDER); hash fields are not crossed (FIELDCROSS); format strings and prefix cuts are literal (FMTCONST, BASECUT); the bulk kernels cover the buffers they are given (ASM, KGUARD); the writer replaces whole files (EFF write-impl).",
+		Explanation: "Compares what Create emits with tables transcribed from the PAR 2.0 specification, independently of gopar's own reader (a mistake shared by writer and reader keeps every round-trip test green): packet magic and the five packet types by value and their wiring to the body writers, wire struct layouts, little-endian only, IEEE CRC32 and MD5 only, hash input orders of the packet MD5 and the file ID, recovery set id = MD5 of the main packet body as written, a creator packet on every success path, field polynomial 0x1100B, log-domain modulus 65535, generator residues {3,5,17,257} and base 2 (CONST); tables are filled over their whole index range (TABLEFILL); writer and reader use the same coder, slicing and checksums (PAIR); the recovery set is sorted by file id before anything is derived from it (DETERM D-c); the byte partition of the coder workers is word-aligned and covers the slice (RACE). Later additions: the requested recovery block count is kept (OPTKEEP); the generator table keeps its order (GENORDER); the matrix is rows x columns = parity x data with element (i, j) = generators[j]^i (VANDER); every recovery block goes into exactly one volume file under its own exponent - key and shard index are the same expression, a volume holds the run [position, next position), the loop ends only at parityShardCount (VOLCOVER); packets are written with the key they are stored under (EXPKEY); hash fields are not crossed (FIELDCROSS); format strings and prefix cuts are literal (FMTCONST, BASECUT); the bulk kernels cover the buffers they are given (ASM, KGUARD); the writer replaces whole files (EFF write-impl).",
 		NotDecided:  []string{"the recovery block values", "that blocks 0..n-1 each occur exactly once across the volume files", "the direction of the file-id ordering beyond byte order"},
 		Run: func(w *World, r *Report, tier string) {
 			guard(r, "CONST", func() { ruleCONST(w, r, constOpts{field: true, generators: true, par2: true}) })
@@ -163,6 +163,7 @@ func init() {
 			guard(r, "OPTKEEP", func() { ruleOPTKEEP(w, r) })
 			guard(r, "GENORDER", func() { ruleGENORDER(w, r) })
 			guard(r, "VOLCOVER", func() { ruleVOLCOVER(w, r) })
+			guard(r, "VANDER", func() { ruleVANDER(w, r) })
 			guard(r, "EXPKEY", func() { ruleEXPKEY(w, r) })
 			guard(r, "FIELDCROSS", func() { ruleFIELDCROSS(w, r) })
 			guard(r, "DETERM", func() { ruleDETERM(w, r) })
@@ -184,7 +185,7 @@ func init() {
 
 	register(&propertySpec{
 		ID: "C06", Fixtures: []string{"GLOB", "DEEPEQ"}, NeedCG: true, Quick: cfgAMD, Thorough: cfgAll,
-		Explanation: "Decides the reader-side structure that layout independence needs: volume discovery lists the directory with an error-returning API and matches prefix and suffix literally, with no further filter, so no base name is interpreted as a pattern and every '<base>.*.par2' beside the index file is returned (GLOB); a file of the set without a main packet cannot be dereferenced (NILF); packets of other sets and of unknown types are skipped without ending the file or storing anything (GATE G2/G3); the exponent-indexed parity table grows without narrow-type wrap and the coder has a row for every index of it (WIRE S2/S5, PAIR); comparisons of duplicated packets compare like with like and the sparse parity table is never compared as a whole (DEEPEQ); a header-only packet is accepted (CONST length bound). Volume discovery asks for exactly '<base>.' + ext (GLOBCALL); the handling of one packet type never branches on state written while handling another type, so packet order cannot matter (ORDERINDEP); the coder considers every surviving recovery block, also after a gap in the exponents (FILTER). Later additions: extension and prefix cuts by length (EXTCUT, BASECUT); names pass the sanitiser unaltered (SANIT, NAMEFID); parse errors propagate (ERRFLOW on the parsing functions).",
+		Explanation: "Decides the reader-side structure that layout independence needs: volume discovery lists the directory with an error-returning API and matches prefix and suffix literally, with no further filter, so no base name is interpreted as a pattern and every '<base>.*.par2' beside the index file is returned (GLOB); a file of the set without a main packet cannot be dereferenced (NILF); packets of other sets and of unknown types are skipped without ending the file or storing anything (GATE G2/G3); the exponent-indexed parity table grows without narrow-type wrap and the coder has a row for every index of it (WIRE S2/S5, PAIR); comparisons of duplicated packets compare like with like and the sparse parity table is never compared as a whole (DEEPEQ); a header-only packet is accepted (CONST length bound). Volume discovery asks for exactly '<base>.' + ext (GLOBCALL); the handling of one packet type never branches on state written while handling another type, so packet order cannot matter (ORDERINDEP); the coder considers every surviving recovery block, also after a gap in the exponents (FILTER). Later additions: extension and prefix cuts by length (EXTCUT, BASECUT); names pass the sanitiser unaltered (SANIT, NAMEFID); a packet is filed under the key parsed with it and a recovery block lands in the table at its own exponent (EXPKEY); parse errors propagate (ERRFLOW on the parsing functions).",
 		NotDecided:  []string{"insensitivity to packet order and duplication as behaviour"},
 		Run: func(w *World, r *Report, tier string) {
 			guard(r, "GLOB", func() { ruleGLOB(w, r, globAll) })
@@ -277,7 +278,7 @@ func init() {
 
 	register(&propertySpec{
 		ID: "C10", NeedCG: true, Quick: cfgAMD, Thorough: cfgAll,
-		Explanation: "Compares the PAR1 writer and reader with tables transcribed from the PAR 1.0 specification: header and entry layouts, identification string, version (low 32 bits only on the reader - the high half is the generator id), file list offset 0x60, control hash over bytes from 0x20 on both sides, status bit 0, the 16 KiB prefix, little-endian only (CONST par1); names go through unicode/utf16 on both sides and the PAR1 matrix option is used on both sides (PAIR); the set hash and the data shards cover saved entries only, and a slice that is a filtered image of the entry list is never used to index the unfiltered list (GATE, IDXDOM); table lookups on header fields stay in range (RANGE). Later additions: extension/prefix cuts (EXTCUT, BASECUT); no branch on the decoded name (NAMESYM); saved entries only (SAVEDONLY); header fields are stored before the header is written (HDRFIELDS); the requested volume count is kept (OPTKEEP); immutability of the entry list (IMMUT); the writer replaces whole files (EFF write-impl).",
+		Explanation: "Compares the PAR1 writer and reader with tables transcribed from the PAR 1.0 specification: header and entry layouts, identification string, version (low 32 bits only on the reader - the high half is the generator id), file list offset 0x60, control hash over bytes from 0x20 on both sides, status bit 0, the 16 KiB prefix, little-endian only (CONST par1); names go through unicode/utf16 on both sides and the PAR1 matrix option is used on both sides (PAIR); the set hash and the data shards cover saved entries only, and a slice that is a filtered image of the entry list is never used to index the unfiltered list (GATE, IDXDOM); table lookups on header fields stay in range (RANGE). Later additions: extension/prefix cuts (EXTCUT, BASECUT); no branch on the decoded name (NAMESYM); saved entries only (SAVEDONLY); header fields are stored before the header is written (HDRFIELDS); the requested volume count is kept (OPTKEEP); volume n carries parity row n-1 in header, file name, reader table and shard position (PAR1VOL); immutability of the entry list (IMMUT); the writer replaces whole files (EFF write-impl).",
 		NotDecided:  []string{"the parity byte values (GF(2^8) arithmetic in klauspost/reedsolomon)"},
 		Run: func(w *World, r *Report, tier string) {
 			guard(r, "CONST", func() { ruleCONST(w, r, constOpts{par1: true}) })
